@@ -81,4 +81,15 @@ Theorem tie_DoubleExp_records :
   kind_writes KDoubleExp = DoubleExponentialCurrent_forward_writes /\ kind_writes KDoubleExp = DoubleExponentialCurrent_clear_resets.
 Proof. split; reflexivity. Qed.
 
+(* the optional constructor arguments default to the values the harness assumes, for the constructor and for
+   partialconstructor alike *)
+Theorem tie_DoubleExp_defaults :
+  mode_of_code DoubleExponentialCurrent_default_interp_mode = dflt_mode /\ DoubleExponentialCurrent_default_delay NM = dflt_delay NM /\
+  DoubleExponentialCurrent_default_interp_tol NM = dflt_tol NM /\ DoubleExponentialCurrent_default_current_overbound NM = dflt_cur_ob NM /\
+  DoubleExponentialCurrent_default_spike_overbound = dflt_spk_ob /\ DoubleExponentialCurrent_default_batch_size = dflt_batch /\ DoubleExponentialCurrent_default_inplace = dflt_inplace /\
+  mode_of_code DoubleExponentialCurrent_partial_default_interp_mode = dflt_mode /\ DoubleExponentialCurrent_partial_default_interp_tol NM = dflt_tol NM /\
+  DoubleExponentialCurrent_partial_default_current_overbound NM = dflt_cur_ob NM /\ DoubleExponentialCurrent_partial_default_spike_overbound = dflt_spk_ob /\
+  DoubleExponentialCurrent_partial_default_inplace = dflt_inplace.
+Proof. repeat split; reflexivity. Qed.
+
 End Tie.
